@@ -76,6 +76,44 @@ def _try(fn, *a):
         return None
 
 
+_G_SEC = bytes.fromhex("0279be667ef9dcbbac55a06295ce870b07029bfcdb2dce28d959f2815b16f81798")
+
+
+def _addr_kind(addr: str, net_type: str | None = None) -> str:
+    """0 p2pkh / 1 p2wpkh / 2 p2sh(-wrapped) of an address string, by what it decodes to."""
+    if b32.is_segwit_prefixed(addr):
+        v, prog, _ = b32.witness_from_address(addr)
+        return "1" if (v, len(prog)) == (0, 20) else "?"
+    kind, _, _ = b58.h160_from_address(addr)
+    return "0" if kind == "p2pkh" else "2"
+
+
+def _root_key(version: bytes, prv: bool):
+    from btclib.bip32 import BIP32KeyData
+    key = (b"\x00" + (12345).to_bytes(32, "big")) if prv else _G_SEC
+    return BIP32KeyData(version=version, depth=0, parent_fingerprint=bytes(4), index=0, chain_code=bytes(range(32)),
+                        key=key)
+
+
+def _slip132_kind(version: bytes) -> str:
+    from btclib import slip132
+    try:
+        a = slip132.address_from_xpub(_root_key(version, False))
+    except BTClibValueError:
+        return "none"
+    return _addr_kind(a)
+
+
+def _slip132_version(version: bytes, k: int) -> bytes:
+    from btclib import slip132
+    from btclib.bip32 import BIP32KeyData
+    from btclib.network import XPRV_VERSIONS_ALL
+    prv = version in XPRV_VERSIONS_ALL
+    fn = [slip132.p2pkh_xkey, slip132.p2wpkh_xkey, slip132.p2wpkh_p2sh_xkey][k]
+    x = fn(_root_key(version, prv), "m/84h/0h/0h" if prv else "m/0/1")
+    return BIP32KeyData.b58decode(x).version
+
+
 def hrp_deviates(text: str) -> bool:
     """the ONE known deviation (known_findings key bech32.hrp-range): BIP173 allows HRP characters 33..126,
     btclib 48..122.  On such strings the reference verdict is not compared (the model still is)."""
@@ -152,6 +190,10 @@ def impl(line: str) -> str:  # noqa: PLR0911, PLR0912
             return "ok other -"
         if op == "spk.addr":
             return "ok " + T(spkmod.address(unhx(t[1]), t[2]))
+        if op == "slip132.kind":
+            return "ok " + _slip132_kind(unhx(t[1]))
+        if op == "slip132.version":
+            return "ok " + hx(_slip132_version(unhx(t[1]), int(t[2])))
         if op == "wif.enc":
             return "ok " + T(b58.wif_from_prv_key(int(t[2]), t[1], t[3] == "True"))
         if op == "wif.dec":
@@ -480,6 +522,92 @@ def _o_prepared_point(w):
     return True, f"{net} {compr}"
 
 
+def _key_spellings(q: int, net: str):
+    """every spelling of one key the address builders accept, declared for network `net`."""
+    from btclib.bip32 import BIP32KeyData
+    from btclib.curves import mult
+    from btclib.curves.curve import PreparedPoint
+    from btclib.to_pub_key import pub_keyinfo_from_key
+    n = NETWORKS[net]
+    pt = mult(q)
+    sec = pub_keyinfo_from_key(pt, net, True)[0]
+    out = [("point", pt), ("sec", sec), ("sec-hex", sec.hex()), ("sec-bytearray", bytearray(sec)),
+           ("prepared", PreparedPoint(pt)), ("int", q), ("prv-octets", q.to_bytes(32, "big")),
+           ("wif", b58.wif_from_prv_key(q, net, True))]
+    for f in ("bip32_pub", "slip132_p2wpkh_pub", "slip132_p2wpkh_p2sh_pub", "slip132_p2wsh_pub"):
+        d = BIP32KeyData(version=getattr(n, f), depth=0, parent_fingerprint=bytes(4), index=0,
+                         chain_code=bytes(range(32)), key=sec)
+        out += [(f, d.b58encode()), (f + "-data", d)]
+    for f in ("bip32_prv", "slip132_p2wpkh_prv"):
+        d = BIP32KeyData(version=getattr(n, f), depth=0, parent_fingerprint=bytes(4), index=0,
+                         chain_code=bytes(range(32)), key=b"\x00" + q.to_bytes(32, "big"))
+        out += [(f, d.b58encode()), (f + "-data", d)]
+    return pt, out
+
+
+def _o_key_spelling_network(w):
+    """whatever way the key is spelled, an address built FOR network `net` carries `net`'s prefix / hrp, and is
+    the address of the plain point."""
+    from btclib.to_pub_key import pub_keyinfo_from_key
+    net, q = w["net"], w["q"]
+    pt, spellings = _key_spellings(q, net)
+    builders = [
+        ("b58.p2pkh", lambda k: b58.p2pkh(k, net)),
+        ("b58.p2wpkh_p2sh", lambda k: b58.p2wpkh_p2sh(k, net)),
+        ("b32.p2wpkh", lambda k: b32.p2wpkh(k, net)),
+        ("ScriptPubKey.p2pkh", lambda k: ScriptPubKey.p2pkh(k, network=net).address),
+        ("ScriptPubKey.p2pk.network", lambda k: b32.address_from_witness(0, bytes(20), ScriptPubKey.p2pk(k, net).network)),
+        ("pub_keyinfo.network", lambda k: b32.address_from_witness(0, bytes(20), pub_keyinfo_from_key(k, net)[1])),
+    ]
+    for bname, f in builders:
+        want = f(pt)
+        ok, note = _reads_back_on(want, net)
+        if not ok:
+            return False, f"{bname}(point, {net}): {note}"
+        if b32.is_segwit_prefixed(want) and not want.startswith(NETWORKS[net].hrp + "1"):
+            return False, f"{bname}(point, {net}) = {want}"
+        for sname, k in spellings:
+            try:
+                got = f(k)
+            except Exception as e:  # noqa: BLE001
+                return False, f"{bname}({sname}, {net}) raised {type(e).__name__}: {e}"
+            if got != want:
+                return False, f"{bname}({sname}, {net}) = {got}, the plain point gives {want}"
+    return True, f"{net}: {len(spellings)} spellings x {len(builders)} builders"
+
+
+def _o_slip132_address_type(w):
+    """a key made by p2pkh_xkey / p2wpkh_xkey / p2wpkh_p2sh_xkey carries its network's version for THAT type and
+    the parent's privacy, and the address derived from it is of that type, on that network."""
+    from btclib import bip32, slip132
+    from btclib.bip32 import BIP32KeyData
+    from btclib.to_pub_key import pub_keyinfo_from_key
+    net, prv, k, parent_field = w["net"], w["prv"], w["k"], w["parent"]
+    n = NETWORKS[net]
+    try:
+        parent = _root_key(getattr(n, parent_field), prv)
+        path = w["path"]
+        fn = [slip132.p2pkh_xkey, slip132.p2wpkh_xkey, slip132.p2wpkh_p2sh_xkey][k]
+        x = fn(parent, path)
+        d = BIP32KeyData.b58decode(x)
+        want_field = ["bip32", "slip132_p2wpkh", "slip132_p2wpkh_p2sh"][k] + ("_prv" if prv else "_pub")
+        if d.version != getattr(n, want_field):
+            return False, f"{fn.__name__}({parent_field} on {net}, {path}) has version {d.version.hex()}, not {want_field}"
+        if d.is_private != prv:
+            return False, f"{fn.__name__}: privacy changed"
+        addr = slip132.address_from_xkey(x)
+        child = bip32.derive(parent, path)
+        sec = pub_keyinfo_from_key(child, compressed=True)[0]
+        first = [m for m in NETWORKS if NETWORKS[m].bip32_pub == n.bip32_pub][0]
+        want = [b58.p2pkh, b32.p2wpkh, b58.p2wpkh_p2sh][k](sec, first)
+    except Exception as e:  # noqa: BLE001
+        return False, f"{type(e).__name__}: {e}"
+    if _addr_kind(addr) != str(k) or addr != want:
+        return False, f"{fn.__name__}({parent_field} on {net}, {path}): address {addr} (type {_addr_kind(addr)}), wanted {want}"
+    ok, note = _reads_back_on(addr, net if net == "mainnet" else first)
+    return ok, note
+
+
 def _o_hrp_range(w):
     """decode(encode(x)) == x for a human-readable part BIP173 allows (33..126)."""
     hrp, data, m = w["hrp"], w["data"], w["m"]
@@ -496,6 +624,7 @@ ORACLES = {
     "regroup.roundtrip": _o_regroup_roundtrip, "regroup.canonical": _o_regroup_canonical,
     "b58.roundtrip": _o_b58_roundtrip, "b58.canonical": _o_b58_canonical, "b58.corrupt": _o_b58_corrupt,
     "spk.inverse": _o_spk_inverse, "addr.inverse": _o_addr_inverse, "net.separation": _o_net_separation,
+    "key.spelling_network": _o_key_spelling_network, "slip132.address_type": _o_slip132_address_type,
     "spk.addresses_network": _o_spk_addresses_network, "key.prepared_point": _o_prepared_point,
     "wif.roundtrip": _o_wif, "xkey.roundtrip": _o_xkey, "bech32.hrp_range": _o_hrp_range,
 }
@@ -833,6 +962,28 @@ def run(ctx):  # noqa: PLR0912, PLR0915
                                                     "qs": [rng.randrange(1, n_ord) for _ in range(nk)]})
         for compr in (True, False, None):
             ctx.check("key.prepared_point", {"net": net, "compr": compr, "q": rng.randrange(1, n_ord)})
+
+    # ---- every key spelling x every network NAME; SLIP132 version <-> address type -----------------------------
+    for net in NETS:
+        for _ in range(ctx.n(1, 4)):
+            ctx.check("key.spelling_network", {"net": net, "q": rng.randrange(1, n_ord)})
+        for prv in (True, False):
+            for k in (0, 1, 2):
+                for parent in ("bip32", "slip132_p2wpkh", "slip132_p2wpkh_p2sh"):
+                    path = rng.choice(["m/84h/0h/0h", "m/0h", "m/1h/2"]) if prv and rng.random() < 0.7 else \
+                        rng.choice(["m/0/1", "m/7", "m"])
+                    ctx.check("slip132.address_type", {"net": net, "prv": prv, "k": k, "path": path,
+                                                       "parent": parent + ("_prv" if prv else "_pub")})
+    from btclib import network as N
+    lines = []
+    allv = sorted({bytes(getattr(n, f)) for n in NETWORKS.values() for f, sz in N._KEY_SIZE if sz == 4})
+    for v in allv + [bytes(4), b"\x04\x88\xb2\x1f"]:
+        lines.append(f"slip132.kind {hx(v)}")
+    for v in allv:
+        for k in (0, 1, 2):
+            lines.append(f"slip132.version {hx(v)} {k}")
+    ctx.stream("slip132", lines)
+    ctx.exhaustive_streams.append("slip132")
 
     # ---- WIF and extended keys (real code only) -------------------------------------------------------
     n_order = 0xFFFFFFFFFFFFFFFFFFFFFFFFFFFFFFFEBAAEDCE6AF48A03BBFD25E8CD0364141
